@@ -16,6 +16,7 @@ import Mathlib.FieldTheory.Finite.Basic
 import Mathlib.RingTheory.Coprime.Lemmas
 import RelicVerif.Lemmas.PpExp
 import RelicVerif.Lemmas.PpMiller
+import RelicVerif.Lemmas.PpLine
 
 namespace Relic.Props.C04B
 open Relic.Model.PpExp Relic.Gen.PpExp Relic.Lemmas.PpExp
@@ -239,6 +240,114 @@ theorem mil_multi_is_product (pairs : List (T × P)) (ds : List ℤ) :
   simpa using this
 
 end miller
+
+/-! ### the line functions as coded (generated from the C text: Gen/PpLine.lean), general-b branch, over any field K ⊇ Fp
+
+Each theorem: the three written slots of the sparse element are s × (the coefficients of the affine tangent / chord through the
+running point evaluated at the other argument) with an explicit s ≠ 0 in the field of the running point's coordinates, the
+fourth slot stays the caller's zero, and the updated running point (homogeneous projective) is the tangent / chord point of
+the affine law (`tangX`/`tangY`/`chordX`/`chordY` of Lemmas/EpFormulas.lean, a = 0).  Hypotheses: characteristic ≠ 2, the running
+point finite with y ≠ 0 and on its curve (doubling) resp. not sharing its x-coordinate with the added point (addition). -/
+section lines
+open Relic.Gen.PpLine Relic.Lemmas.PpLine Relic.Lemmas.EpFormulas Relic.Model.Formula
+variable {K : Type} [Field K] [DecidableEq K]
+/-- pp_dbl_k12_projc_lazyr (running point T = (X : Y : Z) on the twist, evaluated at P = (xP, yP) given precomputed as (3xP, −yP)) -/
+theorem pp_dbl_k12_projc_lazyr_line (b X Y Z xP yP : K) (h2 : (2 : K) ≠ 0) (hY : Y ≠ 0) (hZ : Z ≠ 0) (hc : Y ^ 2 * Z = X ^ 3 + b * Z ^ 3) :
+    let o := pp_dbl_k12_projc_lazyr fieldOps b X Y Z (3 * xP) (-yP)
+    let lam := 3 * (X / Z) ^ 2 / (2 * (Y / Z))
+    let s := -(2 * Y * Z)
+    s ≠ 0 ∧ o.l00 = s * yP ∧ o.l10 = s * (-(lam * xP)) ∧ o.l11 = s * (lam * (X / Z) - Y / Z) ∧ o.l01 = 0 ∧
+      o.z ≠ 0 ∧ o.x / o.z = tangX 0 (X / Z) (Y / Z) ∧ o.y / o.z = tangY 0 (X / Z) (Y / Z) := by
+  have ⟨c00, c01, c10, c11, cx, cy, cz⟩ := pp_dbl_k12_projc_lazyr_closed b X Y Z (3 * xP) (-yP)
+  have ⟨hs, h11, h10, hz, hx, hy⟩ := tangent_core b X Y Z h2 hY hZ hc
+  refine ⟨hs, ?_, ?_, ?_, c01, ?_, ?_, ?_⟩
+  · rw [c00]; ring
+  · rw [c10, ← h10 xP]; ring
+  · rw [c11, h11]
+  · rw [cz]; exact hz
+  · rw [cx, cz]; exact hx
+  · rw [cy, cz]; exact hy
+/-- pp_dbl_k12_projc_basic (running point T = (X : Y : Z) on the twist, evaluated at P = (xP, yP) given precomputed as (3xP, −yP)) -/
+theorem pp_dbl_k12_projc_basic_line (b X Y Z xP yP : K) (h2 : (2 : K) ≠ 0) (hY : Y ≠ 0) (hZ : Z ≠ 0) (hc : Y ^ 2 * Z = X ^ 3 + b * Z ^ 3) :
+    let o := pp_dbl_k12_projc_basic fieldOps b X Y Z (3 * xP) (-yP)
+    let lam := 3 * (X / Z) ^ 2 / (2 * (Y / Z))
+    let s := -(2 * Y * Z)
+    s ≠ 0 ∧ o.l00 = s * yP ∧ o.l10 = s * (-(lam * xP)) ∧ o.l11 = s * (lam * (X / Z) - Y / Z) ∧ o.l01 = 0 ∧
+      o.z ≠ 0 ∧ o.x / o.z = tangX 0 (X / Z) (Y / Z) ∧ o.y / o.z = tangY 0 (X / Z) (Y / Z) := by
+  have ⟨c00, c01, c10, c11, cx, cy, cz⟩ := pp_dbl_k12_projc_basic_closed b X Y Z (3 * xP) (-yP)
+  have ⟨hs, h11, h10, hz, hx, hy⟩ := tangent_core b X Y Z h2 hY hZ hc
+  refine ⟨hs, ?_, ?_, ?_, c01, ?_, ?_, ?_⟩
+  · rw [c00]; ring
+  · rw [c10, ← h10 xP]; ring
+  · rw [c11, h11]
+  · rw [cz]; exact hz
+  · rw [cx, cz]; exact hx
+  · rw [cy, cz]; exact hy
+/-- pp_add_k12_projc_lazyr (running point T = (X : Y : Z) on the twist, Q = (x₂, y₂) affine, evaluated at P = (xP, yP)) -/
+theorem pp_add_k12_projc_lazyr_line (X Y Z x2 y2 xP yP : K) (hZ : Z ≠ 0) (hv : X - Z * x2 ≠ 0) :
+    let o := pp_add_k12_projc_lazyr fieldOps X Y Z x2 y2 xP yP
+    let lam := (y2 - Y / Z) / (x2 - X / Z)
+    let s := X - Z * x2
+    s ≠ 0 ∧ o.l00 = s * yP ∧ o.l10 = s * (-(lam * xP)) ∧ o.l11 = s * (lam * x2 - y2) ∧ o.l01 = 0 ∧
+      o.z ≠ 0 ∧ o.x / o.z = chordX (X / Z) (Y / Z) x2 y2 ∧ o.y / o.z = chordY (X / Z) (Y / Z) x2 y2 := by
+  have ⟨c00, c01, c10, c11, cx, cy, cz⟩ := pp_add_k12_projc_lazyr_closed X Y Z x2 y2 xP yP
+  have ⟨h11, h10, hz, hx, hy⟩ := chord_core X Y Z x2 y2 hZ hv
+  refine ⟨hv, c00, ?_, ?_, c01, ?_, ?_, ?_⟩
+  · rw [c10, ← h10 xP]
+  · rw [c11, h11]
+  · rw [cz]; exact hz
+  · rw [cx, cz]; exact hx
+  · rw [cy, cz]; exact hy
+/-- pp_add_k12_projc_basic (running point T = (X : Y : Z) on the twist, Q = (x₂, y₂) affine, evaluated at P = (xP, yP)) -/
+theorem pp_add_k12_projc_basic_line (X Y Z x2 y2 xP yP : K) (hZ : Z ≠ 0) (hv : X - Z * x2 ≠ 0) :
+    let o := pp_add_k12_projc_basic fieldOps X Y Z x2 y2 xP yP
+    let lam := (y2 - Y / Z) / (x2 - X / Z)
+    let s := X - Z * x2
+    s ≠ 0 ∧ o.l00 = s * yP ∧ o.l10 = s * (-(lam * xP)) ∧ o.l11 = s * (lam * x2 - y2) ∧ o.l01 = 0 ∧
+      o.z ≠ 0 ∧ o.x / o.z = chordX (X / Z) (Y / Z) x2 y2 ∧ o.y / o.z = chordY (X / Z) (Y / Z) x2 y2 := by
+  have ⟨c00, c01, c10, c11, cx, cy, cz⟩ := pp_add_k12_projc_basic_closed X Y Z x2 y2 xP yP
+  have ⟨h11, h10, hz, hx, hy⟩ := chord_core X Y Z x2 y2 hZ hv
+  refine ⟨hv, c00, ?_, ?_, c01, ?_, ?_, ?_⟩
+  · rw [c10, ← h10 xP]
+  · rw [c11, h11]
+  · rw [cz]; exact hz
+  · rw [cx, cz]; exact hx
+  · rw [cy, cz]; exact hy
+/-- pp_dbl_lit_k12 (running point T = (X : Y : Z) in G1, evaluated at Q = (xe, ye) on the twist, passed negated as the loop does) -/
+theorem pp_dbl_lit_k12_line (b X Y Z xe ye : K) (h2 : (2 : K) ≠ 0) (hY : Y ≠ 0) (hZ : Z ≠ 0) (hc : Y ^ 2 * Z = X ^ 3 + b * Z ^ 3) :
+    let o := pp_dbl_lit_k12 fieldOps b X Y Z xe (-ye)
+    let lam := 3 * (X / Z) ^ 2 / (2 * (Y / Z))
+    let s := -(2 * Y * Z)
+    s ≠ 0 ∧ o.l00 = s * (lam * (X / Z) - Y / Z) ∧ o.l01 = s * (-(lam * xe)) ∧ o.l11 = s * ye ∧ o.l10 = 0 ∧
+      o.z ≠ 0 ∧ o.x / o.z = tangX 0 (X / Z) (Y / Z) ∧ o.y / o.z = tangY 0 (X / Z) (Y / Z) := by
+  have ⟨c00, c01, c10, c11, cx, cy, cz⟩ := pp_dbl_lit_k12_closed b X Y Z xe (-ye)
+  have ⟨hs, h11, h10, hz, hx, hy⟩ := tangent_core b X Y Z h2 hY hZ hc
+  refine ⟨hs, ?_, ?_, ?_, c10, ?_, ?_, ?_⟩
+  · rw [c00, h11]
+  · rw [c01, ← h10 xe]
+  · rw [c11]; ring
+  · rw [cz]; exact hz
+  · rw [cx, cz]; exact hx
+  · rw [cy, cz]; exact hy
+
+/-- pp_add_lit_k12 (running point T = (X : Y : Z) in G1, P = (x₂, y₂) affine in G1, evaluated at Q = (xe, ye) on the twist) -/
+theorem pp_add_lit_k12_line (X Y Z x2 y2 xe ye : K) (hZ : Z ≠ 0) (hv : X - Z * x2 ≠ 0) :
+    let o := pp_add_lit_k12 fieldOps X Y Z x2 y2 xe ye
+    let lam := (y2 - Y / Z) / (x2 - X / Z)
+    let s := X - Z * x2
+    s ≠ 0 ∧ o.l00 = s * (lam * x2 - y2) ∧ o.l01 = s * (-(lam * xe)) ∧ o.l11 = s * ye ∧ o.l10 = 0 ∧
+      o.z ≠ 0 ∧ o.x / o.z = chordX (X / Z) (Y / Z) x2 y2 ∧ o.y / o.z = chordY (X / Z) (Y / Z) x2 y2 := by
+  have ⟨c00, c01, c10, c11, cx, cy, cz⟩ := pp_add_lit_k12_closed X Y Z x2 y2 xe ye
+  have ⟨h11, h10, hz, hx, hy⟩ := chord_core X Y Z x2 y2 hZ hv
+  refine ⟨hv, ?_, ?_, ?_, c10, ?_, ?_, ?_⟩
+  · rw [c00, ← h11]; ring
+  · rw [c01, ← h10 xe]
+  · rw [c11]; ring
+  · rw [cz]; exact hz
+  · rw [cx, cz]; exact hx
+  · rw [cy, cz]; exact hy
+
+end lines
 
 /-! ### the hypotheses are satisfiable: the shipped parameters (x, sparse form as stored by fp_prime_set_pairf) -/
 
